@@ -35,6 +35,7 @@ type c17Case struct {
 	Delay      time.Duration
 	CancelAt   int  // requeuer: cancel the context of the k-th delivery during the delay (0: never)
 	Defaults   bool // forwarder: default topic on both sides and a Router provided by the caller
+	Overlap    bool // the first two deliveries (same source topic) are in flight together; the destination looks at what it was given for the first only once the second has arrived
 }
 
 func c17Metas() []map[string]string {
@@ -84,6 +85,7 @@ func runC17(c *Ctx) error {
 						c17Msg{UUID: "bad7", Payload: `{"event":"OrderPlaced","n":1}`, Meta: metas[2], Env: "plainjson"},
 						// a destination that has the same NAME as the forwarder topic (another broker, a second forwarder behind this one) is a destination
 						c17Msg{UUID: "u-samename", Payload: "p", Meta: metas[1], Env: "valid", Dest: "<fwd>"},
+						c17Msg{UUID: "u-nested", Payload: "p-nested", Meta: metas[1], Env: "nested", Dest: "dest-outer"},
 						// control characters (the ones JSON has no short escape for) in the UUID, the metadata and the destination
 						c17Msg{UUID: "u-ctl \x1f\a\x7f", Payload: "p\x00", Meta: map[string]string{"k\x1f": "v\x00\v\x7f"}, Env: "valid", Dest: "dest-\x1f"})
 				}
@@ -94,6 +96,16 @@ func runC17(c *Ctx) error {
 					cases = append(cases, cd)
 				}
 			}
+		}
+	}
+	// two deliveries of one source topic in flight at the same time (a source that does not wait for the settlement of the previous message)
+	for _, comp := range []string{"fanin", "forwarder", "requeuer"} {
+		for _, f := range []map[int]bool{{}, {1: true}} {
+			cs := c17Case{Comp: comp, Fail: f, Overlap: true}
+			for i := 0; i < 3; i++ {
+				cs.Msgs = append(cs.Msgs, c17Msg{UUID: fmt.Sprintf("ov%d", i), Payload: fmt.Sprintf("payload-%d", i), Meta: metas[i%2], Env: "valid", Dest: fmt.Sprintf("dest-%d", i), Topic: "src0"})
+			}
+			cases = append(cases, cs)
 		}
 	}
 	// requeuer with a delay whose message context ends while it waits: nothing published => Nack
@@ -116,7 +128,20 @@ func c17Run(r *tr.Run, cs c17Case) {
 	current := map[string]*message.Message{} // logical id -> consumed copy of the running attempt
 	idOf := map[string]string{}              // uuid of the relayed message -> logical id
 	curDel, curUUID := "", ""                // the delivery in progress (deliveries are made one at a time)
+	ovCalls, ovSecond := 0, make(chan struct{})
 	dest.Fn = func(n int, topic string, msgs []*message.Message) error {
+		if cs.Overlap {
+			mu.Lock()
+			ovCalls++
+			k := ovCalls
+			mu.Unlock()
+			if k == 1 {
+				<-waitOr(ovSecond, 300*time.Millisecond)
+				time.Sleep(2 * time.Millisecond)
+			} else if k == 2 {
+				close(ovSecond)
+			}
+		}
 		oc := "accept"
 		if cs.Fail[n] {
 			oc = "error"
@@ -276,6 +301,27 @@ func c17Run(r *tr.Run, cs c17Case) {
 				env := fwdCapture.Calls()[before].Msgs[0]
 				d.topic = fwdCapture.Calls()[before].Topic // (the topic the forwarder's Publisher really used)
 				d.mk = func() *message.Message { return env.Copy() }
+			case "nested":
+				// the message handed to the Publisher is itself an envelope (chained forwarders, a relayed envelope): a message like any
+				// other -- it arrives, as it is, on the topic named in THIS Publish call
+				before := len(fwdCapture.Calls())
+				if err := fwdPub.Publish("dest-inner", orig); err != nil {
+					r.Emit("error", "what", err.Error())
+					return
+				}
+				inner := fwdCapture.Calls()[before].Msgs[0].Copy()
+				before = len(fwdCapture.Calls())
+				if err := fwdPub.Publish(m.Dest, inner); err != nil {
+					r.Emit("error", "what", err.Error())
+					return
+				}
+				env := fwdCapture.Calls()[before].Msgs[0]
+				d.mk = func() *message.Message { return env.Copy() }
+				m.UUID, m.Payload = inner.UUID, string(inner.Payload)
+				meta = map[string]string{}
+				for k, v := range inner.Metadata {
+					meta[k] = v
+				}
 			case "batch":
 				batch = append(batch, orig)
 				batchIdx = append(batchIdx, len(dels))
@@ -347,7 +393,44 @@ func c17Run(r *tr.Run, cs c17Case) {
 	}
 	// deliver, redelivering a fresh copy after every Nack (as GoChannel does), at most 4 attempts
 	ndeliv := 0
+	if cs.Overlap && len(dels) >= 2 {
+		var pair [2]*message.Message
+		for k := 0; k < 2; k++ {
+			d := dels[k]
+			pair[k] = d.mk()
+			mu.Lock()
+			current[d.id] = pair[k]
+			mu.Unlock()
+			r.Emit("consume", "m", d.id, "uuid", d.rec["uuid"], "payload", d.rec["payload"], "meta", d.rec["meta"], "valid", d.rec["valid"], "dest", d.rec["dest"])
+		}
+		for k := 0; k < 2; k++ {
+			if !src.Emit(dels[k].topic, pair[k]) {
+				r.Emit("hung", "what", "source emit")
+				return
+			}
+		}
+		for k := 0; k < 2; k++ {
+			kind := ""
+			select {
+			case <-pair[k].Acked():
+				kind = "ack"
+			case <-pair[k].Nacked():
+				kind = "nack"
+			case <-time.After(HangBound):
+				r.Emit("hung", "what", "message not settled")
+				return
+			}
+			r.Emit("settled", "m", dels[k].id, "kind", kind)
+		}
+		// (a nacked one is redelivered below, like the others)
+	}
 	for _, d := range dels {
+		mu.Lock()
+		done := current[d.id] != nil && scripted.SettleState(current[d.id]) == "ack"
+		mu.Unlock()
+		if done {
+			continue
+		}
 		for attempt := 1; attempt <= 4; attempt++ {
 			msg := d.mk()
 			mctx, mcancel := context.WithCancel(context.Background())
